@@ -61,7 +61,9 @@ class Tok:
         return f'{self.kind}:{self.text!r}@{self.line}'
 
 
-def tokenize(src):
+def tokenize(src, ext=False):
+    """`ext` (used by rs2lean_stream.py): string literals, character literals and lifetimes become tokens of kind
+    'str' / 'char' / 'lifetime' instead of being refused"""
     toks, i, line, n = [], 0, 1, len(src)
     while i < n:
         c = src[i]
@@ -108,6 +110,24 @@ def tokenize(src):
             if k < n and src[k] == '.' and not src.startswith('..', k) and k + 1 < n and src[k + 1].isdigit():
                 raise Unsupported(f'floating point literal near {src[i:k + 2]!r}', line)
             toks.append(Tok('int', src[i:k], line, val, suffix)); i = k; continue
+        if c in '"\'' and ext:
+            if c == '"':
+                j = i + 1
+                while j < n and src[j] != '"':
+                    if src[j] == '\\': j += 1
+                    if j < n and src[j] == '\n': line += 1
+                    j += 1
+                if j >= n: raise Unsupported('unterminated string literal', line)
+                toks.append(Tok('str', src[i:j + 1], line)); i = j + 1; continue
+            j = i + 1
+            if j < n and src[j] == '\\':
+                j += 2
+                while j < n and src[j] != "'": j += 1
+                toks.append(Tok('char', src[i:j + 1], line)); i = j + 1; continue
+            if j + 1 < n and src[j + 1] == "'":
+                toks.append(Tok('char', src[i:j + 2], line)); i = j + 2; continue
+            while j < n and (src[j].isalnum() or src[j] == '_'): j += 1
+            toks.append(Tok('lifetime', src[i:j], line)); i = j; continue
         if c in '"\'':
             raise Unsupported(f'string / character literal or lifetime ({src[i:i + 12]!r}…)', line)
         for p in PUNCT:
